@@ -178,7 +178,7 @@ class Env:
     def mark(self):
         return len(self.ctx.pc) if self.sym else 0
 
-    def _abstract_query(self, ctx, pc, e, srs):
+    def _abstract_query(self, ctx, pc, e, srs, lemmas=None):
         """generalise the query: the listed intermediate results (SR objects) are replaced by fresh variables
         (numerator and denominator separately, denominator != 0) in the claim, the assumptions, the path condition
         and the facts about algebraic constants; side conditions and function axioms are dropped. Every step only
@@ -199,9 +199,13 @@ class Env:
             return None
         alg = [f for f in ctx.axioms if _mentions(f, set(ctx.alg)) and not _mentions_prefix(f, ('exp!', 'log!', 'sin!', 'cos!', 'sqrt!'))]
         base = [z3.substitute(f, *subs) for f in (ctx.assumes + pc + alg)] + facts
+        # lemmas: equalities between intermediates that the harness has claimed separately (each is its own
+        # obligation); they are the only facts about the abstracted terms that survive the abstraction
+        for a, b in (lemmas or []):
+            base.append(z3.substitute(eqc(a, b), *subs))
         return base, z3.substitute(e, *subs)
 
-    def claim(self, key, cond, robust=None, under=None, canary=False, timeout_ms=None, abstract=None):
+    def claim(self, key, cond, robust=None, under=None, canary=False, timeout_ms=None, abstract=None, lemmas=None):
         """The code satisfies ``cond`` on this path for every value of the inputs.
         key identifies the obligation (and the known-finding entry, if any).
         canary=True: ``cond`` is deliberately wrong and MUST be refuted (vacuity / sat-side guard)."""
@@ -229,7 +233,7 @@ class Env:
             return
         self.cache[sig] = True
         if abstract and not canary:
-            q = self._abstract_query(ctx, pc, e, abstract)
+            q = self._abstract_query(ctx, pc, e, abstract, lemmas)
             if q is not None:
                 t0 = time.time()
                 sv = z3.Solver(); sv.set('timeout', timeout_ms or self.timeout_ms)
@@ -291,7 +295,7 @@ class Env:
             rec['verdict'] = 'unknown'
         self.results.append(rec)
 
-    def claim_eq(self, key, a, b, under=None, per_element=True, timeout_ms=None, abstract=None):
+    def claim_eq(self, key, a, b, under=None, per_element=True, timeout_ms=None, abstract=None, lemmas=None):
         """a == b (scalars or arrays of equal shape), one obligation per element."""
         if isinstance(a, (_np.ndarray, list, tuple)) or isinstance(b, (_np.ndarray, list, tuple)):
             aa = _np.asarray(a); ba = _np.asarray(b)
@@ -299,7 +303,7 @@ class Env:
                 self.claim(key + ':shape', False if not self.sym else SB(z3.BoolVal(False)), under=under)
                 return
             for idx in _np.ndindex(*aa.shape):
-                self.claim_eq('%s[%s]' % (key, ','.join(map(str, idx))), aa[idx], ba[idx], under=under, timeout_ms=timeout_ms, abstract=abstract)
+                self.claim_eq('%s[%s]' % (key, ','.join(map(str, idx))), aa[idx], ba[idx], under=under, timeout_ms=timeout_ms, abstract=abstract, lemmas=lemmas)
             return
         if self.sym:
             x = SR.lift(a); y = SR.lift(b)
@@ -308,7 +312,7 @@ class Env:
             diff = x.n * y.d - y.n * x.d
             den = x.d * y.d
             robust = diff * diff > rv(Fraction(1, 10 ** 6)) * den * den
-            self.claim(key, SB(eqc(x, y)), robust=robust, under=under, timeout_ms=timeout_ms, abstract=abstract)
+            self.claim(key, SB(eqc(x, y)), robust=robust, under=under, timeout_ms=timeout_ms, abstract=abstract, lemmas=lemmas)
         else:
             self.claim(key, self.eq(a, b))
 
